@@ -144,6 +144,6 @@ def obligations(tier):
             obs.append(Ob('luhn/%s-digits/len%02d' % (name, L), luhn(L, False, None, base), 300,
                           'all strings of %d decimal digits written in %s digits (digits for str.isdigit() and int(), hence for the library): same four checks' % (L, name),
                           _funcs))
-    for L, sep in ((8, ('-', 4)), (12, (' ', 4)), (15, ('-', 5))):
+    for L, sep in ((8, ('-', 4)), (12, (' ', 4)), (15, ('-', 5)), (10, (' ', 3)), (15, ('-', 4)), (7, ('/', 2))):
         obs.append(Ob('luhn/separators/len%02d' % L, luhn(L, False, sep), 300, '%d digits with %r every %d digits' % (L, sep[0], sep[1]), _funcs))
     return obs
